@@ -445,3 +445,12 @@ package main
 //@   ensures [C07] fnd_is_own: old(msg.Original) == "fnd" ==> err == nil && routeTo == types.ParseUserId(old(msg.AsUser)).FndName()
 //@   ensures [C07] p2p_two_parties: hasPrefix(old(msg.Original), "usr") && err == nil ==> types.ParseUserId(old(msg.Original)) != types.ZeroUid && types.ParseUserId(old(msg.Original)) != types.ParseUserId(old(msg.AsUser))
 //@   assert at call types.Uid.P2PName [C07] p2p_from_both: $0 == types.ParseUserId(msg.AsUser) && $1 == types.ParseUserId(msg.Original) && hasPrefix(msg.Original, "usr")
+
+// Creating / loading a p2p topic: exactly the requester and the named peer become participants, and every mode
+// written to the cache or handed to the store stays within JRWPA and keeps A.
+//@ func initTopicP2P(t *Topic, sreg *ClientComMessage) (err error)
+//@   requires t != nil && sreg != nil && sreg.Sub != nil && t.perUser != nil
+//@   modifies inferred
+//@   assert at call store.TopicsPersistenceInterface.CreateP2P [C07] peer_given_p2p: ($2.ModeGiven & ^types.ModeCP2P) == 0 && ($2.ModeGiven & types.ModeApprove) != 0 && ($2.ModeWant & ^types.ModeCP2P) == 0 && ($2.ModeWant & types.ModeApprove) != 0
+//@   assert at call store.TopicsPersistenceInterface.CreateP2P [C07] requester_want_p2p: ($1.ModeWant & ^types.ModeCP2P) == 0 && ($1.ModeWant & types.ModeApprove) != 0
+//@   assert at call store.TopicsPersistenceInterface.CreateP2P [C07] requester_given_p2p: ($1.ModeGiven & ^types.ModeCP2P) == 0
